@@ -1,5 +1,5 @@
 SPECIFICATION Spec
 CONSTANTS
-  Frags <- ThoroughFrags
-  MaxLen = 4
+  Frags <- QuickFrags
+  MaxLen = 5
 INVARIANTS TypeOK Emit
